@@ -4,5 +4,6 @@ set -e
 cd "$(dirname "$0")"
 export CARGO_NET_OFFLINE=true
 python3-vt -c "import z3; print('z3', z3.get_version_string())"
-python3 tools/vbuild.py quick
+python3 tools/vbuild.py base
+python3 tools/vbuild.py small
 echo "setup ok"
